@@ -196,7 +196,14 @@ def run(prop, tier, seed, replay=None):
         recs.append(o["rec"])
     for i, r in enumerate(recs):
         r["id"] = i + 1
-    results, stat = tlc.validate_traces("CrashTrace", "CrashTrace.cfg", {"ops": recs},
+    # restart under a non-UTF-8 locale (writer and reader are separate processes)
+    from . import crashdriver as _cd
+    locale_recs = []
+    if not replay:
+        with ThreadPoolExecutor(max_workers=5) as ex:
+            locale_recs = list(ex.map(lambda kc: _cd.run_locale_scenario(kc[0], kc[1]),
+                                      [("vdir", False), ("tree", False), ("bare", False), ("tree", True), ("bare", True)]))
+    results, stat = tlc.validate_traces("CrashTrace", "CrashTrace.cfg", {"ops": recs, "locale": locale_recs},
                                         constants={"EnabledDevs": tlc.tla_set(devs)})
     byid = {r["id"]: r for r in recs}
     nimages = sum(len(r["images"]) for r in recs)
@@ -206,6 +213,15 @@ def run(prop, tier, seed, replay=None):
             distinct.add((r["kind"], r["t"], im["gate"], bool(im["torn"]),
                           json.dumps(im["obs"]["vis"], sort_keys=True) == json.dumps(r["pre"]["vis"], sort_keys=True)))
     for v in sorted(results, key=lambda v: (v["id"], v["k"])):
+        if v["id"] > 100000:
+            lr = locale_recs[v["id"] - 100001]
+            if v["kind"] == "known":
+                rep.known_finding(v["dev"], devs.get(v["dev"], {}).get("what", v["dev"]))
+            else:
+                rep.violation("%s :: %s store written under encoding %s (answers %s), re-opened by a new process: %s %s" % (
+                    v["dev"], lr["kind"], lr["encoding"], lr["res"], v["clause"], v["err"][:200]),
+                    {"property": prop, "verdict": v, "record": lr})
+            continue
         r = byid[v["id"]]
         desc = "%s %s(%s) prior=%s: crash before event %d (%s)%s -> %s %s" % (
             r["kind"], r["opname"], r["n"], r["prior"], v["k"], v["dev"].rsplit(":", 1)[-1],
@@ -242,6 +258,7 @@ def run(prop, tier, seed, replay=None):
         "crash_points": sum(r["nevents"] for r in recs),
         "interrupt_points": sum(r["interrupt_points"] for r in recs),
         "interrupt_lines_total": sum(r["interrupt_lines"] for r in recs),
+        "locale_scenarios": [{"kind": r["kind"], "encoding": r["encoding"], "answers": r["res"]} for r in locale_recs],
         "operations_with_foreign_tmpdir": sum(1 for r in recs if r.get("foreign_tmp")),
         "model": models,
         "states": sum(m["distinct"] for m in models) + stat["distinct"] + cstates,
